@@ -158,7 +158,9 @@ func hookText(fn, site, kind string, h *HookMeta, dstT, srcT string, extras []st
 var MisfitKinds = []string{"err-hook-on-noerr-method", "wrong-dst-type", "wrong-src-type", "extra-count-mismatch", "extra-type-mismatch", "non-error-result", "two-results", "one-param",
 	"extra-ptr-for-value", "extra-value-for-ptr", "extra-count-too-many", "dst-double-pointer", "src-slice", "extra-slice-for-value",
 	// one hook named by two methods: it fits the first (by name) and not the second
-	"shared-hook-extra-count", "shared-hook-extra-type", "shared-hook-dst-type"}
+	"shared-hook-extra-count", "shared-hook-extra-type", "shared-hook-dst-type",
+	// result shapes other than nothing / error
+	"concrete-error-result", "bool-result", "error-first-of-two-results"}
 
 // Gen builds one gensim world. kind is "normal", "noerr" or "misfit".
 func Gen(r *sim.Rng, kind string) (*sim.WorldSpec, *Meta) {
@@ -543,6 +545,16 @@ func Gen(r *sim.Rng, kind string) (*sim.WorldSpec, *Meta) {
 				d = "**" + dstT
 			case "src-slice":
 				s = "[]" + srcT
+			case "concrete-error-result":
+				// a concrete type that implements error is not the error interface: a nil
+				// *T returned by a succeeding hook would become a non-nil error
+				mm.RetErr = true
+				ret, body = " *rt.Injected", "\treturn nil\n"
+			case "bool-result":
+				ret, body = " bool", "\treturn true\n"
+			case "error-first-of-two-results":
+				mm.RetErr = true
+				ret, body = " (error, int)", "\treturn nil, 0\n"
 			case "non-error-result":
 				ret, body = " int", "\treturn 0\n"
 			case "two-results":
